@@ -97,7 +97,10 @@ def main(argv=None):
             else:
                 run.trust(f"pinned source of assumed function {q} (sha256 {cur[:12]})")
         for fn in entry.get("extra", []):
-            run.add_obligations(fn(e, run, args.tier))
+            try:
+                run.add_obligations(fn(e, run, args.tier))
+            except Exception as ex:     # the code changed into a shape the side analysis cannot read: undecided (stand-in decides), never a crash
+                errors.append((getattr(fn, "__name__", "extra").lstrip("_"), f"unsupported-construct: {type(ex).__name__}: {str(ex)[:200]}"))
         from pyvc.verify import lemma_obligations
         run.add_obligations(lemma_obligations(e))
         run.trust(*e.trusted)
